@@ -70,7 +70,7 @@ Definition trank (pc : tpc) : nat :=
   | TDone => 0 | TX => 1 | TXu => 2 | T1 | T2 | TP _ => 2 | TQ KT2 => 3 | T2a => 4 | T0 => 5
   | TBs _ _ | TB1 _ | TB _ => 2 | TDs _ _ => 3 | TD1 _ => 4 | TD _ => 3 | TC _ => 4
   | T4 => 6 | TAx KT4 => 7 | T3r => 8 | TE _ => 9 | T3 XNo => 7 | T3 XAck => 8 | T3 XRange => 9
-  | TQ KT4 => 7 | T1b => 8 | TQ KT0 => 6 | TQ (KTB1 _) => 3 | TAx KT0 => 6 | TAx KT2 => 3 | TAx (KTB1 _) => 3
+  | TQ KT4 => 8 | T1b => 9 | TQ KT0 => 6 | TQ (KTB1 _) => 3 | TAx KT0 => 6 | TAx KT2 => 3 | TAx (KTB1 _) => 3
   end.
 
 Definition cerank (c : epc) : nat := match c with E_done => 0 | _ => 1 end.
